@@ -3,7 +3,8 @@ harness-set names defined in lib/kani_sets.py."""
 
 PROPS = {
     'C17': {
-        'units': ['U-BUF'],
+        'units': ['U-BUF', 'U-VARINT', 'U-UTIL'],
+        'kani': 'C17',
         'level': 'proof',
         'assumptions': ['Rust slices have len <= isize::MAX'],
     },
